@@ -11,14 +11,12 @@ package checkpoint
 //   - a chunk that matches its digest but not the root aborts the restore;
 //   - after "done" the restored database holds exactly the checkpointed tree.
 //
-// Under the engine restoreChunk is redirected to vRestoreChunkR (same steps
-// without the snappy/CBOR framing; the reader hands the proof object over).
+// The real writeChunk / restoreChunk run in both modes (stream codecs modelled
+// under the engine, see zz_verif_c12.go).
 
 import (
 	"bytes"
-	"context"
 	"errors"
-	"fmt"
 	"io"
 
 	"github.com/golang/snappy"
@@ -27,36 +25,11 @@ import (
 	"github.com/oasisprotocol/oasis-core/go/common/crypto/hash"
 	symx "github.com/oasisprotocol/oasis-core/go/internal/verifsymx"
 	"github.com/oasisprotocol/oasis-core/go/storage/mkvs"
-	db "github.com/oasisprotocol/oasis-core/go/storage/mkvs/db/api"
 	"github.com/oasisprotocol/oasis-core/go/storage/mkvs/node"
 	"github.com/oasisprotocol/oasis-core/go/storage/mkvs/syncer"
 )
 
-// vChunkReader is the io.Reader handed to RestoreChunk.
-type vChunkReader struct {
-	r     *bytes.Reader
-	proof *syncer.Proof // engine mode
-}
-
-func (c *vChunkReader) Read(p []byte) (int, error) { return c.r.Read(p) }
-
-// vRestoreChunkR replaces restoreChunk under the engine.
-func vRestoreChunkR(ctx context.Context, ndb db.NodeDB, chunk *ChunkMetadata, r io.Reader) error {
-	cr := r.(*vChunkReader)
-	if ctx.Err() != nil {
-		return ctx.Err()
-	}
-	digest, _ := vWriteChunk(cr.proof, nil)
-	if !chunk.Digest.Equal(&digest) {
-		return fmt.Errorf("%w: digest incorrect", ErrChunkCorrupted)
-	}
-	if err := vRestoreChunk(ctx, ndb, chunk, cr.proof); err != nil {
-		return fmt.Errorf("chunk: %w", err)
-	}
-	return nil
-}
-
-// c12DecodeProof (native mode) recovers the proof entries from chunk file bytes.
+// c12DecodeProof recovers the proof entries from chunk file bytes.
 func c12DecodeProof(buf []byte) *syncer.Proof {
 	dec := cbor.NewDecoder(snappy.NewReader(bytes.NewReader(buf)))
 	p := &syncer.Proof{V: v1ProofsVersion}
@@ -87,22 +60,14 @@ func c12Tamper(p *syncer.Proof, by byte) *syncer.Proof {
 }
 
 type c12Chunk struct {
-	proof  *syncer.Proof // engine mode
-	bytes  []byte        // native mode
+	bytes  []byte
 	digest hash.Hash
 }
 
-func (c *c12Chunk) reader() *vChunkReader {
-	return &vChunkReader{r: bytes.NewReader(c.bytes), proof: c.proof}
-}
+func (c *c12Chunk) reader() io.Reader { return bytes.NewReader(c.bytes) }
 
 // tampered returns a well-formed chunk (with its own digest) whose contents were altered.
 func (c *c12Chunk) tampered(by byte) *c12Chunk {
-	if symx.Symbolic() {
-		q := c12Tamper(c.proof, by)
-		d, _ := vWriteChunk(q, nil)
-		return &c12Chunk{proof: q, digest: d}
-	}
 	q := c12Tamper(c12DecodeProof(c.bytes), by)
 	var buf bytes.Buffer
 	d, err := writeChunk(q, &buf)
@@ -141,7 +106,7 @@ func VerifC12Restorer() {
 	symx.Assert(err == nil && len(digests) == len(wf.sinks) && len(digests) >= 1, "chunking failed")
 	chunks := make([]*c12Chunk, len(digests))
 	for i := range digests {
-		chunks[i] = &c12Chunk{proof: wf.sinks[i].proof, bytes: wf.sinks[i].buf.Bytes(), digest: digests[i]}
+		chunks[i] = &c12Chunk{bytes: wf.sinks[i].buf.Bytes(), digest: digests[i]}
 	}
 	// cfg bad=1: the checkpoint was advertised with one chunk whose digest is consistent
 	// with its bytes but whose contents do not belong to the root
@@ -169,7 +134,7 @@ func VerifC12Restorer() {
 	inProgress, finished := true, false
 	for step := 0; step < n; step++ {
 		idx := symx.Choose(symx.N("idx", step), len(chunks))
-		fault := symx.Choose(symx.N("fault", step), 4) // 0 none, 1 NewBatch fails, 2 Commit fails, 3 bytes do not match the digest
+		fault := symx.Choose(symx.N("fault", step), 5) // 0 none, 1 NewBatch fails, 2 Commit fails, 3 bytes do not match the digest, 4 another chunk's bytes
 		before := len(d2.nodes)
 		src := chunks[idx]
 		switch fault {
@@ -180,13 +145,14 @@ func VerifC12Restorer() {
 		case 3:
 			by := symx.Uint8(symx.N("corruptBy", step))
 			symx.Assume(by != 0)
-			if symx.Symbolic() {
-				src = &c12Chunk{proof: c12Tamper(src.proof, by)}
-			} else {
-				b := append([]byte(nil), src.bytes...)
-				b[len(b)-1] ^= by
-				src = &c12Chunk{bytes: b}
-			}
+			b := append([]byte(nil), src.bytes...)
+			b[len(b)-1] ^= by
+			src = &c12Chunk{bytes: b}
+		case 4:
+			// the (well-formed, verifiable) bytes of another chunk of the same checkpoint delivered under this index
+			symx.Assume(len(chunks) > 1)
+			src = chunks[(idx+1)%len(chunks)]
+			symx.Assume(src.digest != chunks[idx].digest)
 		}
 		done, err := rs.RestoreChunk(c12Ctx, uint64(idx), src.reader())
 		d2.failNewBatch, d2.failCommit = false, false
@@ -200,7 +166,7 @@ func VerifC12Restorer() {
 			symx.Assert(errors.Is(err, ErrChunkAlreadyRestored) && !done, "duplicate delivery of a restored chunk not refused")
 			symx.Assert(len(d2.nodes) == before, "a duplicate delivery imported nodes")
 			symx.Cover("duplicate")
-		case fault == 3:
+		case fault == 3 || fault == 4:
 			symx.Assert(errors.Is(err, ErrChunkCorrupted) && !done, "chunk with bytes not matching its digest was not rejected as corrupted")
 			symx.Assert(len(d2.nodes) == before, "a corrupted chunk made nodes visible")
 			symx.Cover("corrupted")
